@@ -19,6 +19,40 @@ def _method(P, name):
     return P.func(CO, f'Compiler.{name}')
 
 
+def ctor_args(P, cls, args, kwargs):
+    """Positional form of a constructor call of a query_compile class: keywords placed by the class's __init__ parameters, or by its
+    dataclass fields in declaration order."""
+    args, kwargs = list(args), list(kwargs)
+    if not kwargs:
+        return tuple(args)
+    qc = P.module('beanquery.query_compile')
+    ci = qc.classes.get(cls)
+    if ci is not None:
+        init = ci.methods.get('__init__')
+        names = init.params[1:] if init is not None else [st.target.id for st in ci.node.body if isinstance(st, ast.AnnAssign) and isinstance(st.target, ast.Name)]
+    else:
+        # X = collections.namedtuple('X', 'a b') / namedtuple('X', ['a', 'b'])
+        v = qc.assigns.get(cls)
+        names = None
+        if isinstance(v, ast.Call) and ast.unparse(v.func).split('.')[-1] == 'namedtuple' and len(v.args) >= 2:
+            try:
+                spec = ast.literal_eval(v.args[1])
+                names = spec.replace(',', ' ').split() if isinstance(spec, str) else list(spec)
+            except ValueError:
+                names = None
+        if names is None:
+            raise AnalysisError(f'anchor vanished: query_compile.{cls}')
+    out = list(args)
+    kw = dict(kwargs)
+    for n in names[len(args):]:
+        if n not in kw:
+            break
+        out.append(kw.pop(n))
+    if kw:
+        raise AnalysisError(f'{cls}(...): keyword arguments {sorted(map(str, kw))} do not continue the positional ones ({names})')
+    return tuple(out)
+
+
 def _attr(base, name):
     return T('attr', (base, name))
 
@@ -716,8 +750,9 @@ def select_flow(P):
             snaps.setdefault(id(ex), {})['pivot_by'] = snap(args[1]) if len(args) > 1 else None
             return None
         if f == 'EvalQuery':
-            snaps.setdefault(id(ex), {})['query'] = [snap(a) for a in args] + [(k, snap(v)) for k, v in kwargs]
-            return T('new', ('EvalQuery', args))
+            pos = ctor_args(P, 'EvalQuery', args, kwargs)
+            snaps.setdefault(id(ex), {})['query'] = [snap(a) for a in pos]
+            return T('new', ('EvalQuery', pos))
         return NotImplemented
     paths = Engine(P, on_call=on_call).paths(fi, {'self': SELF, fi.params[1]: NODE})
     # snapshots are keyed by the Exec that produced them; recover through the events' owner: one Exec per path, in order
@@ -1070,7 +1105,7 @@ def transform_cases(P, res):
             ex.heap[_attr(SELF, 'table')] = Sym('TABLE_AFTER_FROM')
             return Sym('C_FROM')
         if f.split('.')[-1] == 'EvalPrint':
-            return T('new', ('EvalPrint', args))
+            return T('new', ('EvalPrint', ctor_args(P, 'EvalPrint', args, kwargs)))
         return NotImplemented
     for p in Engine(P, on_call=on_call3).paths(pr, {'self': SELF, pr.params[1]: NODE}):
         good = p.outcome == 'return' and p.value == T('new', ('EvalPrint', (Sym('TABLE_AFTER_FROM'), Sym('C_FROM')))) and \
